@@ -796,7 +796,7 @@ OPS_ANY = ["rank", "null_right", "null_left", "spectral_norm", "ns", "qsvd_full"
 OPS_SQUARE = ["det_dieudonne", "power_iteration", "power_iteration_nonhermitian", "hessenberg", "schur_unified", "schur_real", "lu"]
 OPS_HERM = ["det_moore", "eig", "tridiag"]
 OPS_SYS = ["qgmres_left_lu", "qgmres_none"]
-OPS_TALL = ["hybrid_qr"]
+OPS_TALL = ["hybrid_qr", "hybrid_seeded", "cgne_seeded", "rsp_seeded"]
 LAZY_IMPORT_OPS = {"ns_sparse", "ns_sparse_fast", "qgmres_sparse", "qgmres_sparse_left_lu", "rank", "det_dieudonne", "det_moore", "null_right", "null_left", "spectral_norm", "power_iteration",
                    "power_iteration_nonhermitian", "qgmres_left_lu", "rsp_qr", "hybrid_qr", "random_unitary"}
 
@@ -856,7 +856,7 @@ def import_cases(draw, tier):
             n = draw(st.integers(1, 3))
             m = n + draw(st.integers(0, 2))
             A = draw(gen.qarray(m, n, "generic"))[0] + np.pad(ref.qeye(n), ((0, m - n), (0, 0), (0, 0)))
-            jobs.append({"op": "hybrid_qr", "args": {"A": A}, "seed": seed})
+            jobs.append({"op": draw(st.sampled_from(OPS_TALL)), "args": {"A": A}, "seed": seed})
         else:
             op = draw(st.sampled_from(["random_unitary", "create_test_matrix", "unfold"]))
             if op == "random_unitary":
